@@ -165,11 +165,19 @@ def _c06():
     }
 
 
+MISMATCH = [("unit", "unit"), ("symbol", "number"), ("number", "char"), ("char_list", "byte_list"), ("pair", "pair"), ("list", "list"), ("true", "false"), ("number", "unit"), ("char", "char_list"), ("symbol", "symbol")]
+
+
 def _c12():
     hs = []
     for op in "less_than less_than_or_equal greater_than greater_than_or_equal".split():
         for c, what in (("numbers", "two numbers: any i32 / any f64 incl. NaN, infinities, -0.0, subnormals; mixed int/float"), ("chars", "two chars (all scalar values)"), ("bytes", "two bytes"), ("char_lists", "two char lists of length 0..3, all chars"), ("byte_lists", "two byte lists of length 0..3"), ("other", "any other pair of operand types (symbolic tags, 20 x 20 minus the comparable pairs)")):
-            hs.append(H("c12_%s_%s" % (op, c), "rel", "quick", "%s on %s: agrees with the natural order (numeric / lexicographic with the shorter prefix first); unit when a float is NaN; false on other types; never an error" % (op, what), timeout=900 if c == "other" else None))
+            if c == "other":
+                hs.append(H("c12_%s_%s" % (op, c), "rel", "thorough", "%s on %s: false, never an error" % (op, what), timeout=1800, optional=True))
+            else:
+                hs.append(H("c12_%s_%s" % (op, c), "rel", "quick", "%s on %s: agrees with the natural order (numeric / lexicographic with the shorter prefix first); unit when a float is NaN; never an error" % (op, what)))
+        for l, r in MISMATCH:
+            hs.append(H("c12_%s_mismatch_%s_%s" % (op, l, r), "rel", "quick" if (l, r) in (("symbol", "number"), ("char_list", "byte_list"), ("pair", "pair"), ("char", "char_list")) else "thorough", "%s on (%s, %s) operands with symbolic contents: false, nothing deferred, never an error" % (op, l, r)))
     return {
         "claim": "LessThan, LessThanOrEqual, GreaterThan and GreaterThanOrEqual agree with the natural total order on two numbers (integers and floats mixed, full width, every f64), two chars, two bytes, two char lists and two byte lists (length 0..3); yield unit when a float operand is NaN and false on every other pair of operand types; never fail. Since each instruction is compared with the same reference order, trichotomy, <=/> duality and a<b iff b>a follow.",
         "functions": ["runtime/src/runtime/comparison.rs less_than, less_than_or_equal, greater_than, greater_than_or_equal, perform_comparison, cmp_list", "data/src/data/number.rs PartialOrd / PartialEq for SimpleNumber", "runtime/src/execute.rs"],
